@@ -106,6 +106,13 @@ def check_all(I, defs):
 
 def check_node(I, defs, i, iro):
     X = I[i]
+    # what the interface says it extends is what its resolution order lists
+    # (also when asked from inside a change notification, or after one failed)
+    for j in range(len(I)):
+        if bool(X.isOrExtends(I[j])) != (j in iro) or bool(X.extends(I[j], strict=False)) != (j in iro):
+            return ('isOrExtends-vs-iro', i, j, j in iro)
+    if not X.isOrExtends(Interface):
+        return ('isOrExtends-root', i)
     first = next((j for j in iro if defs[j]), None)
     exp = None if first is None else I[first].direct('x')
     nd = dict(X.namesAndDescriptions(all=True))
@@ -232,6 +239,7 @@ def eval_case(case):
             return v
     if O:
         O.armed = True
+    failed_at = set()
     for op in hist:
         if op[0] == 'settag':
             # a tagged value set on an existing interface after its descendants
@@ -264,19 +272,30 @@ def eval_case(case):
                 # propagation stopped at the observer: interfaces further down
                 # were not told (no transactional semantics are promised), but
                 # the re-based interface and the observed one had completed
-                # their own update and must answer consistently
-                for j in {k, O.k}:
+                # their own update and must answer consistently -- now, and
+                # after whatever re-basing comes next
+                failed_at = {k, O.k}
+                for j in failed_at:
                     iro = [_idx(I, x) for x in I[j].__iro__ if x is not Interface]
                     v = check_node(I, defs, j, iro)
                     if v:
                         return ('after-failed-notification:' + v[0],) + tuple(v[1:])
-                return None
+                continue
+            if failed_at:
+                for j in failed_at | {k}:
+                    iro = [_idx(I, x) for x in I[j].__iro__ if x is not Interface]
+                    v = check_node(I, defs, j, iro)
+                    if v:
+                        return ('re-basing-after-a-failed-notification:' + v[0],) + tuple(v[1:])
+                continue
         if O and O.seen:
             return ('inside-notification:' + O.seen[0],) + tuple(O.seen[1:])
-        if warm == 2:
+        if warm == 2 and not failed_at:
             v = check_all(I, defs)
             if v:
                 return v
+    if failed_at:
+        return None          # interfaces that were never told are allowed to lag
     return check_all(I, defs)
 
 
@@ -362,15 +381,23 @@ def run(ctx):
                     cases.append((dag, defs, (o, ('settag', k)), 2))
     # an observer subscribed to a node looks at it from inside the notification,
     # or raises there (propagation stops; everything must stay self-consistent)
-    for dag in gen.dags(rn, 2):
-        for defs in itertools.product((0, 1), repeat=rn):
-            if sum(defs) < 2:
-                continue
-            for o in ops:
-                for k in range(rn):
-                    for mode in ('look', 'raise'):
-                        for pos in ('first', 'last'):
-                            cases.append((dag, defs, (o,), 1, (mode, k, pos)))
+    # Raising observers only on 3-node graphs: with four nodes an interface can
+    # sit below the failure point on two paths, and what it then answers depends
+    # on which of its bases was told first -- nothing the property promises.
+    for on in sorted({3, rn}):
+        oops = rebase_ops(on)
+        for dag in gen.dags(on, 2):
+            for defs in itertools.product((0, 1), repeat=on):
+                if sum(defs) < 2:
+                    continue
+                for o in oops:
+                    for k in range(on):
+                        for mode in (('look', 'raise') if on == 3 else ('look',)):
+                            for pos in ('first', 'last'):
+                                cases.append((dag, defs, (o,), 1, (mode, k, pos)))
+                                if mode == 'raise':
+                                    for o2 in oops[::2]:
+                                        cases.append((dag, defs, (o, o2), 1, (mode, k, pos)))
     for impl in ('c', 'py'):
         res = ctx.map(impl, 'evaluate', chunks(cases, 500))
         for r in res:
